@@ -26,6 +26,7 @@ import (
 	"time"
 
 	"github.com/gopcua/opcua"
+	"github.com/gopcua/opcua/server"
 	"github.com/gopcua/opcua/ua"
 
 	"verifharness/internal/h"
@@ -34,7 +35,7 @@ import (
 )
 
 const (
-	sigRestore  = "C26.restore-session-no-resume"
+	sigServer   = "C26.server-subscription-dies-with-channel"
 	sigRecreate = "C26.recreate-failure-ignored"
 )
 
@@ -585,6 +586,10 @@ type scenResult struct {
 	publishAfter int
 	nBefore      int
 	nAfter       int
+	// subscriptions the server deleted on its own after the fault
+	serverDeleted int
+	// data publishes the server believes it sent after the fault
+	serverSent int
 }
 
 func drainAll(subs []*subRec) {
@@ -624,25 +629,206 @@ func delivered(s *subRec, handle uint32, v int32, d time.Duration) bool {
 	}
 }
 
+// backend is the server side of a reconnect scenario.
+type backend interface {
+	URL() string
+	NodeID(v int) *ua.NodeID
+	// Change makes variable v (monitored by sub with the given client handle) take
+	// the value val and has the server publish it.
+	Change(sub *opcua.Subscription, handle uint32, v int, val int32) error
+	Fault(kind string) error
+	PublishAfter() int  // PublishRequests seen after the fault
+	ServerDeleted() int // subscriptions the server deleted after the fault
+	ServerSent() int    // publish responses (data or keep-alive) the server believes it sent after the fault
+	Close()
+}
+
+// realBackend: the gopcua server of /repo/server behind a cutting TCP proxy.
+type realBackend struct {
+	srv     *xreal.Real
+	px      *xsubs.Proxy
+	nvars   int
+	mu      sync.Mutex
+	faulted bool
+	deleted int
+	sent    int
+}
+
+func newRealBackend(nvars int) (*realBackend, error) {
+	srv, err := xreal.StartReal(0, nvars)
+	if err != nil {
+		return nil, err
+	}
+	px, err := xsubs.NewProxy(srv.Addr())
+	if err != nil {
+		srv.Close()
+		return nil, err
+	}
+	b := &realBackend{srv: srv, px: px, nvars: nvars}
+	server.VerifSetHook(func(name string, args ...interface{}) {
+		switch name {
+		case "DeleteSubscription":
+			b.mu.Lock()
+			if b.faulted {
+				b.deleted++
+			}
+			b.mu.Unlock()
+		case "sub.publish", "sub.keepalive":
+			b.mu.Lock()
+			if b.faulted {
+				b.sent++
+			}
+			b.mu.Unlock()
+		}
+	})
+	return b, nil
+}
+
+func (b *realBackend) URL() string             { return b.px.URL() }
+func (b *realBackend) NodeID(v int) *ua.NodeID { return b.srv.NodeID(v) }
+func (b *realBackend) Change(sub *opcua.Subscription, handle uint32, v int, val int32) error {
+	if st := b.srv.Set(v, val); st != ua.StatusOK {
+		return fmt.Errorf("server write failed: %v", st)
+	}
+	return nil
+}
+func (b *realBackend) Fault(kind string) error {
+	b.mu.Lock()
+	b.faulted = true
+	b.mu.Unlock()
+	switch kind {
+	case "cut":
+		b.px.Cut()
+	case "restart":
+		b.px.Hold(true)
+		b.px.Cut()
+		b.srv.Close()
+		b.mu.Lock()
+		b.faulted = false // deletions caused by closing the old server do not count
+		b.mu.Unlock()
+		srv2, err := xreal.StartReal(0, b.nvars)
+		if err != nil {
+			return err
+		}
+		b.srv = srv2
+		b.px.SetBackend(srv2.Addr())
+		b.px.Hold(false)
+	}
+	return nil
+}
+func (b *realBackend) PublishAfter() int { return b.px.CountSinceCut(826) }
+func (b *realBackend) ServerDeleted() int {
+	b.mu.Lock()
+	defer b.mu.Unlock()
+	return b.deleted
+}
+func (b *realBackend) ServerSent() int {
+	b.mu.Lock()
+	defer b.mu.Unlock()
+	return b.sent
+}
+func (b *realBackend) Close() {
+	server.VerifSetHook(nil)
+	b.px.Close()
+	b.srv.Close()
+}
+
+// scriptedBackend: a server that keeps sessions and subscriptions across a
+// dropped connection and answers a PublishRequest on whatever connection it
+// arrives (what the specification asks of a server).
+type scriptedBackend struct {
+	srv     *xsubs.Scripted
+	mu      sync.Mutex
+	held    []heldPub
+	after   int
+	faulted bool
+	seq     map[uint32]uint32
+}
+
+type heldPub struct {
+	c     *xsubs.SConn
+	reqID uint32
+	req   ua.Request
+}
+
+func newScriptedBackend() (*scriptedBackend, error) {
+	b := &scriptedBackend{seq: map[uint32]uint32{}}
+	srv, err := xsubs.StartScripted(func(s *xsubs.Scripted, c *xsubs.SConn, reqID uint32, r ua.Request) ua.Response {
+		if _, ok := r.(*ua.PublishRequest); ok {
+			b.mu.Lock()
+			b.held = append(b.held, heldPub{c, reqID, r})
+			if b.faulted {
+				b.after++
+			}
+			b.mu.Unlock()
+			return nil
+		}
+		return s.Default(r)
+	})
+	if err != nil {
+		return nil, err
+	}
+	b.srv = srv
+	return b, nil
+}
+
+func (b *scriptedBackend) URL() string { return b.srv.URL() }
+func (b *scriptedBackend) NodeID(v int) *ua.NodeID {
+	return ua.NewStringNodeID(2, fmt.Sprintf("v%d", v))
+}
+func (b *scriptedBackend) Change(sub *opcua.Subscription, handle uint32, v int, val int32) error {
+	// wait (briefly) for an outstanding PublishRequest; without one the value
+	// cannot be published and the caller's delivery check fails
+	xsubs.WaitFor(1500*time.Millisecond, func() bool { b.mu.Lock(); defer b.mu.Unlock(); return len(b.held) > 0 })
+	b.mu.Lock()
+	if len(b.held) == 0 {
+		b.mu.Unlock()
+		return nil
+	}
+	hd := b.held[len(b.held)-1]
+	b.held = b.held[:len(b.held)-1]
+	b.seq[sub.SubscriptionID]++
+	seq := b.seq[sub.SubscriptionID]
+	b.mu.Unlock()
+	hd.c.Reply(hd.reqID, xsubs.DataResponse(hd.req, sub.SubscriptionID, seq, 1, nil, handle, val))
+	return nil
+}
+func (b *scriptedBackend) Fault(kind string) error {
+	b.mu.Lock()
+	b.faulted = true
+	b.held = nil
+	b.mu.Unlock()
+	b.srv.DropConns()
+	return nil
+}
+func (b *scriptedBackend) PublishAfter() int {
+	b.mu.Lock()
+	defer b.mu.Unlock()
+	return b.after
+}
+func (b *scriptedBackend) ServerDeleted() int { return 0 }
+func (b *scriptedBackend) ServerSent() int    { return 0 }
+func (b *scriptedBackend) Close()             { b.srv.Close() }
+
 func (e *env) scenario(kind string, nsubs, nitems int) *scenResult {
 	res := &scenResult{}
 	nvars := nsubs * nitems
-	srv, err := xreal.StartReal(0, nvars)
+	var be backend
+	var err error
+	if kind == "cut-scripted" {
+		be, err = newScriptedBackend()
+	} else {
+		be, err = newRealBackend(nvars)
+	}
 	if err != nil {
 		res.infra = "start server: " + err.Error()
 		return res
 	}
-	defer func() { srv.Close() }()
-	px, err := xsubs.NewProxy(srv.Addr())
-	if err != nil {
-		res.infra = err.Error()
-		return res
-	}
-	defer px.Close()
+	defer be.Close()
 	rec := xsubs.NewRecorder()
 	opcua.VerifSetHook(rec.Hook)
 	defer opcua.VerifSetHook(nil)
-	c, err := opcua.NewClient(px.URL(), opcua.SecurityMode(ua.MessageSecurityModeNone), opcua.AutoReconnect(true),
+	c, err := opcua.NewClient(be.URL(), opcua.SecurityMode(ua.MessageSecurityModeNone), opcua.AutoReconnect(true),
 		opcua.ReconnectInterval(50*time.Millisecond), opcua.RequestTimeout(3*time.Second))
 	if err != nil {
 		res.infra = err.Error()
@@ -670,7 +856,7 @@ func (e *env) scenario(kind string, nsubs, nitems int) *scenResult {
 			hd := uint32(100 + v)
 			sr.nodes = append(sr.nodes, v)
 			sr.handle = append(sr.handle, hd)
-			reqs = append(reqs, opcua.NewMonitoredItemCreateRequestWithDefaults(srv.NodeID(v), ua.AttributeIDValue, hd))
+			reqs = append(reqs, opcua.NewMonitoredItemCreateRequestWithDefaults(be.NodeID(v), ua.AttributeIDValue, hd))
 		}
 		mres, err := sr.sub.Monitor(ctx, ua.TimestampsToReturnBoth, reqs...)
 		if err != nil || len(mres.Results) != nitems {
@@ -685,7 +871,10 @@ func (e *env) scenario(kind string, nsubs, nitems int) *scenResult {
 	for _, s := range subs {
 		for i, v := range s.nodes {
 			val++
-			srv.Set(v, val)
+			if err := be.Change(s.sub, s.handle[i], v, val); err != nil {
+				res.infra = err.Error()
+				return res
+			}
 			if !delivered(s, s.handle[i], val, 3*time.Second) {
 				res.infra = fmt.Sprintf("item v%d does not deliver before the fault", v)
 				return res
@@ -697,21 +886,9 @@ func (e *env) scenario(kind string, nsubs, nitems int) *scenResult {
 	mark := rec.Mark()
 
 	// ---- the fault
-	switch kind {
-	case "cut":
-		px.Cut()
-	case "restart":
-		px.Hold(true)
-		px.Cut()
-		srv.Close()
-		srv2, err := xreal.StartReal(0, nvars)
-		if err != nil {
-			res.infra = "restart server: " + err.Error()
-			return res
-		}
-		srv = srv2
-		px.SetBackend(srv.Addr())
-		px.Hold(false)
+	if err := be.Fault(kind); err != nil {
+		res.infra = "fault: " + err.Error()
+		return res
 	}
 	// wait for the reconnect to finish: monitor.done seen and no further error
 	// segment opened for a while
@@ -738,7 +915,7 @@ func (e *env) scenario(kind string, nsubs, nitems int) *scenResult {
 	res.segs = segments(rec.Events()[mark:])
 	res.after = registry(c)
 	res.nAfter = len(c.VerifSubs())
-	res.publishAfter = px.CountSinceCut(826)
+	res.publishAfter = be.PublishAfter()
 
 	// ---- the property's own oracle: every subscription that was active keeps
 	// delivering data changes for all of its monitored items
@@ -746,8 +923,8 @@ func (e *env) scenario(kind string, nsubs, nitems int) *scenResult {
 	for k, s := range subs {
 		for i, v := range s.nodes {
 			val++
-			if st := srv.Set(v, val); st != ua.StatusOK {
-				res.infra = fmt.Sprintf("server write failed: %v", st)
+			if err := be.Change(s.sub, s.handle[i], v, val); err != nil {
+				res.infra = err.Error()
 				return res
 			}
 			if !delivered(s, s.handle[i], val, 1500*time.Millisecond) {
@@ -755,6 +932,9 @@ func (e *env) scenario(kind string, nsubs, nitems int) *scenResult {
 			}
 		}
 	}
+	res.serverDeleted = be.ServerDeleted()
+	res.serverSent = be.ServerSent()
+	res.publishAfter = be.PublishAfter()
 	return res
 }
 
@@ -851,12 +1031,15 @@ func (e *env) runScenario(kind string, nsubs, nitems int) {
 			}
 		}
 	}
-	detail := fmt.Sprintf("%s: after the reconnect (actions %v, activeSubs=%d, %d PublishRequests on the wire) no data change for %v; registry %s -> %s",
-		name, last.actions, last.done, res.publishAfter, res.missing, res.before, res.after)
+	detail := fmt.Sprintf("%s: after the reconnect (actions %v, activeSubs=%d, publish loop resumed=%v, %d PublishRequests on the wire; server: %d subscriptions deleted, %d publish responses sent) no data change for %v; registry %s -> %s",
+		name, last.actions, last.done, last.resumed, res.publishAfter, res.serverDeleted, res.serverSent, res.missing, res.before, res.after)
 	switch {
-	case !viaTransfer && last.done == 0 && res.publishAfter == 0 && res.nAfter == res.nBefore:
-		e.r.Fail(name, sigRestore, detail)
-		e.r.Confirm(sigRestore, detail)
+	case kind == "cut" && !viaTransfer && last.resumed && res.publishAfter > 0 && res.nAfter == res.nBefore && (res.serverDeleted >= 1 || res.serverSent >= 1):
+		// the client did its part (session restored, registry intact, publishing
+		// again); the gopcua server answered on the channel the subscription was
+		// created on — which is gone — and/or deleted the subscription
+		e.r.Fail(name, sigServer, detail)
+		e.r.Confirm(sigServer, detail)
 	case viaTransfer && res.nAfter < res.nBefore && len(res.missing) <= (res.nBefore-res.nAfter)*nitems:
 		e.r.Fail(name, sigRecreate, detail)
 		e.r.Confirm(sigRecreate, detail)
@@ -911,14 +1094,12 @@ func main() {
 		kind string
 		a, b int
 	}
-	list := []sc{{"cut", 1, 1}, {"cut", 2, 2}, {"restart", 1, 2}, {"restart", 3, 1}, {"restart", 2, 1}}
+	list := []sc{{"cut-scripted", 1, 1}, {"cut-scripted", 2, 2}, {"cut", 1, 1}, {"cut", 2, 2}, {"restart", 1, 2}, {"restart", 3, 1}, {"restart", 2, 1}}
 	if o.Thorough() {
 		for i := 0; i < 12; i++ {
-			k := "cut"
-			if e.rnd.Bool() {
-				k = "restart"
-			}
-			list = append(list, sc{k, 1 + e.rnd.Intn(3), 1 + e.rnd.Intn(3)})
+			k := e.rnd.Pick(0, 1, 2)
+			kinds := []string{"cut", "restart", "cut-scripted"}
+			list = append(list, sc{kinds[k], 1 + e.rnd.Intn(3), 1 + e.rnd.Intn(3)})
 		}
 	}
 	for _, s := range list {
@@ -946,7 +1127,7 @@ func main() {
 	}
 	for _, b := range []string{"acks:length-mismatch", "acks:matched", "acks:status-o", "acks:status-i", "acks:status-u", "acks:status-x",
 		"notif:keepalive", "notif:data-in-order", "notif:data-gap", "notif:seq-wrap", "notif:unknown-sub",
-		"round:data", "round:keepalive", "round:unknown", "round:timeout", "scenario:cut", "scenario:restart"} {
+		"round:data", "round:keepalive", "round:unknown", "round:timeout", "scenario:cut", "scenario:cut-scripted", "scenario:restart"} {
 		if r.Distribution[b] == 0 {
 			r.Unreached = append(r.Unreached, b)
 		}
